@@ -199,6 +199,11 @@ impl RtrStream {
         keepalive: Option<Duration>,
         server_metrics: &RtrServerMetrics,
     ) -> Result<Self, io::Error> {
+        #[cfg(routinator_verif)]
+        if crate::verif::rtr_setup_fails() {
+            // Hook H6: forced failure of the connection setup.
+            return Err(io::Error::other("forced RTR setup failure"))
+        }
         if let Some(duration) = keepalive {
             Self::set_keepalive(&sock, duration)?
         }
